@@ -489,3 +489,81 @@ def native_expected(defn, payload: bytes, pbf, mode_key=None):
     if end != len(payload):
         return None
     return out
+
+
+# --------------------------------------------------------------------------------------------------------------
+# variant selection rules, restated as data from the selectors' docstrings (ubxvariants.py) and the interface
+# description: which payload definition applies to a class/ID x mode, given the payload (parse route) or the
+# discriminating keywords (keyword route).  Conditions are small predicate descriptions interpreted by the checker.
+# --------------------------------------------------------------------------------------------------------------
+# condition language:  ("len", n) payload length == n | ("byte", i, v) payload[i] == v (and the byte exists)
+#                      ("kw", name) keyword present    | ("kwval", name, v) keyword present with value v
+#                      ("not", c) | ("and", c1, c2) | ("true",)
+VARIANT_RULES = {
+    ("POLL", b"\x06\x31"): {"payload": [(("len", 1), "CFG-TP5-TPX"), (("true",), "CFG-TP5")],
+                            "keywords": [(("kw", "tpIdx"), "CFG-TP5-TPX"), (("true",), "CFG-TP5")]},
+    ("SET", b"\x02\x41"): {"payload": [(("len", 16), "RXM-PMREQ"), (("true",), "RXM-PMREQ-S")],
+                           "keywords": [(("kw", "version"), "RXM-PMREQ"), (("true",), None)]},
+    ("SET", b"\x02\x72"): {"payload": [(("byte", 0, 0), "RXM-PMP-V0"), (("true",), "RXM-PMP-V1")],
+                           "keywords": [(("kwval", "version", 0), "RXM-PMP-V0"), (("kw", "version"), "RXM-PMP-V1"), (("true",), None)]},
+    ("GET", b"\x02\x72"): {"payload": [(("byte", 0, 0), "RXM-PMP-V0"), (("true",), "RXM-PMP-V1")],
+                           "keywords": [(("kwval", "version", 0), "RXM-PMP-V0"), (("kw", "version"), "RXM-PMP-V1"), (("true",), None)],
+                           "table": "SET"},
+    ("GET", b"\x02\x59"): {"payload": [(("byte", 1, 1), "RXM-RLM-S"), (("true",), "RXM-RLM-L")],
+                           "keywords": [(("kwval", "type", 1), "RXM-RLM-S"), (("kw", "type"), "RXM-RLM-L"), (("true",), None)]},
+    ("GET", b"\x06\x17"): {"payload": [(("len", 4), "CFG-NMEAvX"), (("len", 12), "CFG-NMEAv0"), (("true",), "CFG-NMEA")],
+                           "keywords": [(("true",), None)]},
+    ("GET", b"\x01\x60"): {"payload": [(("len", 20), "NAV-AOPSTATUS-L"), (("true",), "NAV-AOPSTATUS")],
+                           "keywords": [(("true",), None)]},
+    ("GET", b"\x01\x3c"): {"payload": [(("byte", 0, 0), "NAV-RELPOSNED-V0"), (("true",), "NAV-RELPOSNED")],
+                           "keywords": [(("kwval", "version", 0), "NAV-RELPOSNED-V0"), (("kw", "version"), "NAV-RELPOSNED"), (("true",), None)]},
+    ("SET", b"\x0d\x15"): {"payload": [(("len", 1), "TIM-VCOCAL-V0"), (("true",), "TIM-VCOCAL")],
+                           "keywords": [(("kwval", "type", 0), "TIM-VCOCAL-V0"), (("kw", "type"), "TIM-VCOCAL"), (("true",), None)]},
+    ("SET", b"\x06\x06"): {"payload": [(("len", 2), "CFG-DAT-NUM"), (("true",), "CFG-DAT")],
+                           "keywords": [(("kw", "datumNum"), "CFG-DAT-NUM"), (("true",), "CFG-DAT")]},
+    ("GET", b"\x27\x09"): {"payload": [(("byte", 0, 1), "SEC-SIG-V1"), (("true",), "SEC-SIG-V2")],
+                           "keywords": [(("kwval", "version", 1), "SEC-SIG-V1"), (("kw", "version"), "SEC-SIG-V2"), (("true",), None)]},
+    ("GET", b"\x0b\x32"): {"payload": [(("byte", 1, 0xFF), "AID-ALPSRV-SEND"), (("true",), "AID-ALPSRV-REQ")],
+                           "keywords": [(("kwval", "type", 0xFF), "AID-ALPSRV-SEND"), (("kw", "type"), "AID-ALPSRV-REQ"), (("true",), None)]},
+}
+
+
+def expected_definition_rules(mode_name, key, msgids):
+    """ordered [(condition, definition name | None)] for one class/ID x mode on the given route; None = not decidable
+    from keywords (the selector must refuse).  MGA: by the first payload byte / the `type` keyword through the message-ID
+    table.  Everything else: the single definition named by the message-ID table."""
+    r = VARIANT_RULES.get((mode_name, key))
+    if r is not None:
+        return r
+    three = sorted(k for k in msgids if len(k) == 3 and k[0:2] == key)
+    if three and mode_name in ("SET", "GET"):
+        pay = [(("byte", 0, k[2]), msgids[k]) for k in three] + [(("true",), None)]
+        kws = [(("kwval", "type", k[2]), msgids[k]) for k in three] + [(("true",), None)]
+        return {"payload": pay, "keywords": kws}
+    return None
+
+
+def native_expected_definition(mode_name, key, msgids, tables_by_mode, payload=None, kwargs=None):
+    """name of the definition the selection rules prescribe for a concrete payload / keyword dict (None: refuse)"""
+    rules = expected_definition_rules(mode_name, key, msgids)
+    if rules is None:
+        return msgids.get(key)
+
+    def cond(c):
+        k = c[0]
+        if k == "true":
+            return True
+        if k == "len":
+            return len(payload) == c[1]
+        if k == "byte":
+            return len(payload) > c[1] and payload[c[1]] == c[2]
+        if k == "kw":
+            return c[1] in kwargs
+        if k == "kwval":
+            return c[1] in kwargs and kwargs[c[1]] == c[2]
+        raise ValueError(c)
+
+    for c, name in rules["payload" if payload is not None else "keywords"]:
+        if cond(c):
+            return name
+    return None
